@@ -334,6 +334,73 @@ def c07(run):
                       "error trees (undeclared slot, slot passed twice, missing component, ~ alias)")
 
 
+@check("C18")
+def c18(run):
+    fams = ["c18names", "c18faults"] if run.tier == "quick" else ["c18namesall", "c18faults"]
+    jobs = [dict(module="MC_Tree", cfg=text_cfg(fam), name="MC_Tree_" + fam, timeout=3000, workers=1) for fam in fams]
+    jobs.append(dict(module="MC_Loader", cfg=LOADER_CFG, name="MC_Loader", timeout=600, workers=2))
+    sts = run.tlc_many(jobs)
+    for fam, st in zip(fams, sts):
+        path, n = run.records(st)
+        run.replay("tree", path, name="tree-" + fam)
+        run.add_samples(path, 1)
+    return vp.finish(run, "model_checking",
+                     "names: every single entry, all entries, all templates, all non-templates (thorough: every pair) of a "
+                     "9-entry file-name alphabet (nested, extension inside a directory name, inside a file name, as a "
+                     "proper infix, dotted stems) x 7 directory spellings (trailing/leading slash, ./, parent segments, "
+                     "nested, sub-directory) x 3 extensions; String() of every candidate name; faults: every file of a "
+                     "valid page+layout+component tree x {deleted, garbage, empty, dangling symlink, directory in its "
+                     "place} and truncation at every chunk boundary; EvaluateFile vs EvaluateString; the loader state "
+                     "machine (every tree over 3 names x 6 file kinds, every processing order) is model-checked for "
+                     "AllOrNothing and Deterministic", exhaustive=True,
+                     assumptions=["the sandbox runs as root, so 'unreadable by permission' cannot be produced; a directory "
+                                  "in the file's place exercises the same read-error path"])
+
+
+@check("C14")
+def c14(run):
+    jobs = [dict(module="MC_Det", cfg=text_cfg("all"), name="MC_Det", timeout=600, workers=1),
+            dict(module="MC_Loader", cfg=LOADER_CFG, name="MC_Loader", timeout=600, workers=2)]
+    sts = run.tlc_many(jobs)
+    path, n = run.records(sts[0])
+    reps = "20" if run.tier == "quick" else "200"
+    procs = 3 if run.tier == "quick" else 12
+    sigs = []
+    for k in range(procs):
+        col = {}
+        run.replay("det", path, name="det-%d" % k, env={"TWH_REPEAT": reps}, collect=col, timeout_ms=20000)
+        sigs.append(col)
+    # across fresh processes
+    for cid in sigs[0]:
+        vals = {json.dumps(sg.get(cid)) for sg in sigs if cid in sg}
+        if len(vals) > 1:
+            run.results.append({"id": cid, "status": "viol", "kind": "nondeterminism", "family": "det",
+                                "msg": "results differ between fresh processes: " + " | ".join(sorted(vals))[:600],
+                                "tags": ["cross-process"], "case": {"id": cid}})
+    run.add_samples(path, 2)
+    return vp.finish(run, "model_checking",
+                     "order-sensitive programs and trees (objects with 2..6 keys printed, dumped, assigned and supplied as "
+                     "data; object literals and component argument lists with several failing entries; data maps with "
+                     "several unsupported values; pages with several undefined inserts or duplicated slots; trees with "
+                     "several faulty files), each run %s times in one process and in %d fresh processes: all results "
+                     "(output bytes, or error message with line and path) must be identical; the loader machine is "
+                     "model-checked for Deterministic over every tree of 3 names x 6 file kinds and every processing "
+                     "order" % (reps, procs), exhaustive=False,
+                     assumptions=["Go randomises map iteration per loop, so repetition explores the model's PickFile choices; "
+                                  "with k distinct orders the chance that N runs all agree by luck is at most k^-(N-1)"])
+
+
+LOADER_CFG = """CONSTANTS
+  DevP <- DevPIntended
+  DevK <- DevKIntended
+  NameOrder <- MCNameOrder
+SPECIFICATION Spec
+INVARIANTS AllOrNothing Deterministic
+PROPERTIES LoadTerminates
+CHECK_DEADLOCK FALSE
+"""
+
+
 def replay(path):
     rec = json.load(open(path))
     prop = rec["property"]
